@@ -750,6 +750,32 @@ class Recorder:
         return "RVar 999999"  # something the model has no name for: must disagree
 
 
+PASS_TIME_LIMIT = 20  # seconds per generated program (a normal run takes milliseconds)
+
+
+class PassTimeout(Exception):
+    pass
+
+
+class _time_limit:
+    def __init__(self, seconds):
+        self.seconds = seconds
+
+    def __enter__(self):
+        import signal
+
+        def handler(signum, frame):
+            raise PassTimeout(f"the pass did not terminate within {self.seconds} s")
+        self.old = signal.signal(signal.SIGALRM, handler)
+        signal.alarm(self.seconds)
+
+    def __exit__(self, *a):
+        import signal
+        signal.alarm(0)
+        signal.signal(signal.SIGALRM, self.old)
+        return False
+
+
 def run_case(text, family, record=True):
     """-> dict(before, after, records, error)"""
     res = {"text": text, "family": family}
@@ -766,13 +792,14 @@ def run_case(text, family, record=True):
         res["error"] = f"unsupported:{e}"
         return res
     try:
-        if record:
-            with Recorder(fn, nm) as r:
+        with _time_limit(PASS_TIME_LIMIT):  # a pass that does not terminate is a failure of the pass, not of the harness
+            if record:
+                with Recorder(fn, nm) as r:
+                    the_pass(family).apply(xctx(), mod)
+                res["records"] = r.records
+            else:
                 the_pass(family).apply(xctx(), mod)
-            res["records"] = r.records
-        else:
-            the_pass(family).apply(xctx(), mod)
-            res["records"] = []
+                res["records"] = []
         mod.verify()
     except Exception as e:  # the pass itself failed loudly
         res["error"] = f"pass-error:{type(e).__name__}:{str(e)[:120]}"
